@@ -884,6 +884,122 @@ def drv_expected_plain(q, u):
     return j
 
 
+# ------------------------------------------------------------------ result aliasing across calls
+class Keeper:
+    """KEEP-AND-RECHECK: every returned array is kept uncopied next to a deep copy; after later calls the kept array must
+    still equal its copy; results of different calls must not share memory with each other or with arguments/attributes."""
+
+    def __init__(self, ctx):
+        self.ctx, self.items = ctx, []
+
+    def keep(self, what, arr, inp, against=()):
+        arrs = [a for a in (arr if isinstance(arr, (tuple, list)) else [arr]) if isinstance(a, np.ndarray)]
+        for a in arrs:
+            for name, other in against:
+                if isinstance(other, np.ndarray) and a.size and other.size and np.shares_memory(a, other):
+                    self.ctx.fail("result_aliases_internal_state", "%s shares memory with %s" % (what, name), inp, None, None)
+            for w2, a2, _, _ in self.items:
+                if a.size and a2.size and np.shares_memory(a, a2):
+                    self.ctx.fail("result_overwritten_by_later_call", "%s shares memory with the result of an earlier call (%s)" % (what, w2), inp, None, None)
+            self.items.append((what, a, a.copy(), inp))
+            self.ctx.count("alias:kept results")
+
+    def recheck(self):
+        for what, a, c, inp in self.items:
+            if a.shape != c.shape or not np.array_equal(a, c):
+                self.ctx.fail("result_overwritten_by_later_call", "%s, kept by the caller, was changed by a later call" % what, inp, a.tolist()[:4], c.tolist()[:4])
+                break
+        self.items = []
+
+
+def scribble(a):
+    """overwrite a returned array in place with garbage (after the caller has copied what it needs)"""
+    for x in (a if isinstance(a, (tuple, list)) else [a]):
+        if isinstance(x, np.ndarray) and x.size and x.flags.writeable:
+            x[...] = -9 if x.dtype.kind in "iu" else (7.25 if x.dtype.kind == "f" else x.flat[0])
+
+
+def alias_audit(ctx, thorough):
+    import scipy.sparse as sp
+    from quantecon.markov.core import MarkovChain, mc_sample_path
+    from quantecon import DiscreteRV
+    import quantecon.random.utilities as qru
+    rng = ctx.rng
+    for it in range(40 if thorough else 14):
+        n = rng.choice([2, 3, 4])
+        rows = [gen_row(rng, n, "dyadic") for _ in range(n)]
+        A = np.array(rows)
+        sparse = it % 3 == 1
+        sv = [11 * i + 2 for i in range(n)] if it % 3 == 2 else None
+        mc = MarkovChain(sp.csr_matrix(A) if sparse else A.copy(), state_values=sv)
+        ts, nr = rng.choice([2, 4, 7]), rng.choice([None, 1, 3])
+        inp0 = {"function": "simulate_indices/simulate (same shape repeated on one object)", "P": rows, "sparse": sparse, "state_values": sv, "ts": ts, "num_reps": nr}
+        K = Keeper(ctx)
+        P_before = A.copy()
+        ctx.case(("alias", rows, sparse, sv, ts, nr), nontrivial=True)
+        for rep in range(5):
+            meth = rng.choice(["simulate_indices", "simulate"])
+            k = 1 if nr is None else nr
+            stream = [rng.random() for _ in range(k * (ts - 1))]
+            init = rng.randrange(n)
+            inp = dict(inp0, call=rep, method=meth, init=init, stream=hx(stream))
+            iv = init if (meth == "simulate_indices" or sv is None) else sv[init]
+            try:
+                X = getattr(mc, meth)(ts, init=iv, num_reps=nr, random_state=ScriptedRS(stream + [0.5] * 8))
+                fresh = getattr(MarkovChain(A.copy(), state_values=sv), meth)(ts, init=iv, num_reps=nr, random_state=ScriptedRS(stream + [0.5] * 8))
+            except Exception as e:
+                ctx.fail("exception", "%s raised %s on a valid input" % (meth, type(e).__name__), inp, repr(e)[:200], None)
+                break
+            if not np.array_equal(np.asarray(X), np.asarray(fresh)):
+                ctx.fail("result_aliases_internal_state", "%s on a reused object (earlier results scribbled on) differs from a fresh object" % meth, inp,
+                         np.asarray(X).tolist()[:3], np.asarray(fresh).tolist()[:3])
+            against = [("MarkovChain.P", mc.P if not sparse else mc.P.data), ("MarkovChain.cdfs", mc.cdfs if not sparse else mc.cdfs1d)]
+            if mc.state_values is not None:
+                against.append(("MarkovChain.state_values", mc.state_values))
+            K.keep("%s result #%d" % (meth, rep), X, inp, against)
+            if rep % 2 == 1:
+                K.recheck()                    # kept results must have survived the later same-shaped calls
+                scribble(X)                    # SCRIBBLE: the caller edits what it was given; later calls must not care
+                ctx.count("alias:scribbled results")
+        K.recheck()
+        now = mc.P.toarray() if sparse else np.asarray(mc.P)
+        if not np.array_equal(now, P_before):
+            ctx.fail("mutation", "MarkovChain.P changed along a sequence of simulate calls", inp0, None, None)
+        # mc_sample_path, DiscreteRV.draw, random.draw: same-shape repeats
+        K = Keeper(ctx)
+        q = rows[0]
+        d = DiscreteRV(np.array(q))
+        cdf = np.cumsum(q)
+        for rep in range(4):
+            us = [rng.random() for _ in range(5)]
+            inp = {"function": "mc_sample_path / DiscreteRV.draw / random.draw (same shape repeated)", "P": rows, "q": q, "us": hx(us), "call": rep}
+            try:
+                r1 = mc_sample_path(A, init=0, sample_size=6, random_state=ScriptedRS(us + [0.5] * 4))
+                r2 = d.draw(5, random_state=ScriptedRS(us))
+                itv = iter(us)
+                orig = np.random.random
+                try:
+                    np.random.random = lambda size=None: (next(itv) if size is None else np.array([next(itv) for _ in range(size)]))
+                    r3 = qru.draw(cdf, 5)
+                finally:
+                    np.random.random = orig
+            except Exception as e:
+                ctx.fail("exception", "draw raised %s on a valid input" % type(e).__name__, inp, repr(e)[:200], None)
+                break
+            exp2 = [drv_expected(q, u) for u in us]
+            if [int(v) for v in r2] != exp2 or [int(v) for v in r3] != [drv_expected_plain(q, u) for u in us]:
+                ctx.fail("result_aliases_internal_state", "a draw after earlier results were scribbled on is wrong", inp, [r2.tolist(), r3.tolist()], exp2)
+            K.keep("mc_sample_path result #%d" % rep, r1, inp, [("P", A)])
+            K.keep("DiscreteRV.draw result #%d" % rep, r2, inp, [("DiscreteRV.Q", d.Q), ("DiscreteRV.q", np.asarray(d.q))])
+            K.keep("random.draw result #%d" % rep, r3, inp, [("cdf", cdf)])
+            if rep == 1:
+                K.recheck()
+                scribble([r1, r2, r3])
+        K.recheck()
+        if not np.array_equal(np.asarray(d.q), np.array(q)) or not np.array_equal(d.Q, np.cumsum(q)) or not np.array_equal(cdf, np.cumsum(q)):
+            ctx.fail("mutation", "DiscreteRV.q/Q or the cdf argument changed along a sequence of draws", {"q": q}, None, None)
+
+
 FLOAT_AXIOMS = ("FloatAxioms.Prim2SF_valid", "FloatAxioms.SF2Prim_Prim2SF", "FloatAxioms.Prim2SF_SF2Prim", "FloatAxioms.ltb_spec",
                 "FloatAxioms.leb_spec", "FloatAxioms.add_spec", "FloatAxioms.mul_spec", "FloatAxioms.eqb_spec", "FloatAxioms.compare_spec",
                 "ClassicalDedekindReals.sig_forall_dec", "ClassicalDedekindReals.sig_not_dec", "Classical_Prop.classic",
@@ -935,6 +1051,7 @@ def run(ctx):
     ctype = "@chain float * Z * init_t * option Z * list Z * list float * res (bool * list (list Z))"
 
     harden(ctx, thorough)
+    alias_audit(ctx, thorough)
 
     # ---- exact instance tied as well: dyadic chains and dyadic uniforms (float arithmetic exact) run through NumQ
     qcases, qmeta = [], []
